@@ -5,6 +5,8 @@ CONSTANTS Pkgs <- P3
  Under <- UnderSib3
  RootPkg = "none"
  HashCoversSum = FALSE
+ SaveAlways = TRUE
+ KeepAfterDefers = TRUE
  BehChoices <- Beh3
  ArgsMenu <- Args3
  MaxRuns = 3
